@@ -247,6 +247,23 @@ def menu_case(name):
         return None if err <= tol else f"rel {err:.3g}"
 
     outside = [i for i in range(len(OBS)) if np.any(np.abs(OBS[i]) > np.array(DIM) / 2)]
+    if name.startswith("cuboid=mesh:lattice"):
+        # observers at simple rational fractions of the body size (scan grids aligned with the body, unrotated): the inside
+        # decision of the mesh must not have exceptional points there
+        dim = np.array((1.0, 1.0, 1.0)) if name.endswith("unit") else np.array(DIM)
+        g = np.linspace(-0.45, 0.45, 19)
+        lat = np.array([(x, y, z) for x in g for y in g for z in g]) * dim
+        cu = magpy.magnet.Cuboid(dimension=dim, polarization=pol)
+        cn = corners / np.array(DIM) * dim
+        res = []
+        for tag, m in (("faces", magpy.magnet.TriangularMesh(vertices=cn, faces=cube_faces, polarization=pol)),
+                       ("hull", magpy.magnet.TriangularMesh.from_ConvexHull(points=cn, polarization=pol))):
+            for f in "BJ":
+                got, ref = np.asarray(getattr(m, "get" + f)(lat)), np.asarray(getattr(cu, "get" + f)(lat))
+                err = np.linalg.norm(got - ref, axis=1) / np.max(np.linalg.norm(ref, axis=1))
+                nbad = int(np.sum(~(err <= RTOL)))
+                res.append((f"{f}-{tag}", None if nbad == 0 else f"{nbad} of {len(lat)} lattice points differ, e.g. at {lat[int(np.argmax(err))].tolist()} rel {np.max(err):.3g}"))
+        return res
     if name == "cuboid=mesh":
         m = magpy.magnet.TriangularMesh(vertices=corners, faces=cube_faces, polarization=pol)
         return [(f, cmp([m], [cub], f)) for f in "BH"]
@@ -398,7 +415,7 @@ def menu_case(name):
     raise AssertionError(name)
 
 
-MENU = ["repaired-mesh", "small-body:um", "small-body:mm", "cuboid=mesh", "cuboid=convexhull", "cuboid=5tets", "cuboid=6tets", "cuboid=triangles(H)", "to_TriangleCollection",
+MENU = ["repaired-mesh", "small-body:um", "small-body:mm", "cuboid=mesh", "cuboid=mesh:lattice-unit", "cuboid=mesh:lattice-box", "cuboid=convexhull", "cuboid=5tets", "cuboid=6tets", "cuboid=triangles(H)", "to_TriangleCollection",
         "from_triangles", "from_mesh", "mesh-with-path", "two-boxes=disconnected-mesh:plain", "two-boxes=disconnected-mesh:flipB0",
         "two-boxes=disconnected-mesh:flipA-all", "two-boxes=disconnected-mesh:flipB-all", "two-boxes=disconnected-mesh:interleaved-flips", "cylinder=segment(0,360)", "cylinder=segment(-180,180)",
         "cylinder=segment(90,450)", "cylinder=segment(-360,0)", "cylinder=segment(-500,-140)", "hollow=difference", "sectors:pos",
